@@ -458,16 +458,26 @@ def lib_closure(prog, funs):
     return sorted(out)
 
 
-def render_split(prog, lib_funs, libref="plib.ao", libid="PLib", names=None, dialect=None):
+def render_split(prog, lib_funs, libref="plib.ao", libid="PLib", names=None, dialect=None, lib_doms=()):
     """(library unit text, client unit text): the functions lib_funs (0-based indices, closed under calls, all in
-    lib_eligible(prog)) are defined in the library unit; the client unit holds every other form in the original
-    order and imports the library (`#library <libid> "<libref>"`; libref = "x.ao", or "x" for libx.al on the
-    library path).  Type macros and imports are repeated in both units."""
+    lib_eligible(prog)) and the domains lib_doms (0-based indices into prog["doms"]) are defined in the library unit;
+    the client unit holds every other form in the original order and imports the library
+    (`#library <libid> "<libref>"`; libref = "x.ao", or "libx.al" for an archive).  Type macros and imports are
+    repeated in both units.  Domains (feature dom) are self-contained (their operations mention only their own and
+    their parameter's operations); as soon as one domain is in the library unit all categories are defined there and
+    the client's remaining domains use the imported categories."""
     r = Renderer(prog, names, dialect)
     pre, texts = r.parts()
+    dd = r.domain_decls()
+    ncat = len(prog.get("cats", []))
+    cat_lines, dom_lines = dd[:ncat], dd[ncat:]
+    common = [l for l in pre if l not in dd]
     lib = set(lib_funs)
-    lib_text = "\n".join(pre + [t for (k, i, t) in texts if k == "f" and i in lib]) + "\n"
-    head = [pre[0], '#library %s "%s"' % (libid, libref), "import from %s;" % libid] + pre[1:]
+    ldoms = sorted(set(lib_doms))
+    lib_lines = common + (cat_lines if ldoms else []) + [dom_lines[i] for i in ldoms]
+    lib_text = "\n".join(lib_lines + [t for (k, i, t) in texts if k == "f" and i in lib]) + "\n"
+    head = [common[0], '#library %s "%s"' % (libid, libref), "import from %s;" % libid] + common[1:]
+    head += ([] if ldoms else cat_lines) + [l for i, l in enumerate(dom_lines) if i not in ldoms]
     client_text = "\n".join(head + [t for (k, i, t) in texts if not (k == "f" and i in lib)]) + "\n"
     return lib_text, client_text
 
